@@ -107,6 +107,8 @@ def build_ops(K, rng, slot=0, permute=True, vid_base=0):
     ops = [init]
     body = []
     plats = list(K["tree"]["platforms"])
+    if K["tree"]["arch"] not in plats and rng.random() < 0.4:
+        plats.append(K["tree"]["arch"])      # the tree arch listed by hand or left to the writer: the same platform set either way
     if permute:
         rng.shuffle(plats)
     if rng.random() < 0.5:
@@ -190,6 +192,7 @@ TI_BP_POISON = [
     ("base_product", "short", [None, 5]),
 ]
 TI_VAR_POISON = [
+    ("name", [None, 5]),
     ("id", [None, 5, "Ser-ver"]),
     ("type", [None, "layered-product", "Variant", ""]),
 ]
@@ -210,6 +213,9 @@ def poison_sites(K):
                 sites.append({"kind": "var", "var": v["n"], "field": f, "bad": b, "good": v[f]})
         if v["parent"] is not None:
             sites.append({"kind": "var", "var": v["n"], "field": "uid", "bad": "Else-" + v["id"], "good": v["uid"]})
+        for kind in ("packages", "identity", "debug_repository"):
+            for b in (5, True, ["x.pem"], 1.5, {"__bytes__": "abc"}):
+                sites.append({"kind": "var-path", "var": v["n"], "pkind": kind, "bad": b, "good": v["paths"].get(kind)})
     for platform, table in K["images"].items():
         for name, path in table.items():
             sites.append({"kind": "image", "platform": platform, "name": name, "bad": "/" + path, "good": path})
@@ -227,6 +233,8 @@ def poison_sites(K):
         sites.append({"kind": "stage2", "field": "mainimage", "bad": "/" + K["stage2"]["mainimage"], "good": K["stage2"]["mainimage"]})
     else:
         sites.append({"kind": "stage2", "field": "mainimage", "bad": "/abs/install.img", "good": None})
+    for b in (5, True, ["inst.img"], 1.5, {"__bytes__": "images/inst.img"}):
+        sites.append({"kind": "stage2", "field": "instimage", "bad": b, "good": K["stage2"]["instimage"]})
     sites.append({"kind": "checksum-abs", "path": "/abs/file", "ctype": "sha256", "value": "0" * 64})
     for f in ("discnum", "totaldiscs"):
         for b in pools.with_generic(["1"]):
@@ -243,6 +251,9 @@ def poison_ops(site, slot=0):
     elif k == "var":
         p = {"op": "ti_var_set", "var": site["var"], "field": site["field"], "value": site["bad"]}
         h = {"op": "ti_var_set", "var": site["var"], "field": site["field"], "value": site["good"]}
+    elif k == "var-path":
+        p = {"op": "ti_var_path", "var": site["var"], "kind": site["pkind"], "value": site["bad"]}
+        h = {"op": "ti_var_path", "var": site["var"], "kind": site["pkind"], "value": site["good"]}
     elif k == "image":
         p = {"op": "ti_image", "platform": site["platform"], "name": site["name"], "path": site["bad"]}
         h = {"op": "ti_image", "platform": site["platform"], "name": site["name"], "path": site["good"]}
@@ -270,7 +281,9 @@ def poison_ops(site, slot=0):
 def gen_discinfo(rng):
     ts = pick(rng, [1410855216.123456, 1.0, 123456.75, -5.5, 1e-07, 1.7976931348623157e+308, 1234567890.0, 0.1 + 0.2])
     return {"timestamp": ts, "description": pick(rng, ["Fedora 20", "Red Hat Enterprise Linux 7.0", "ünï côde", "a", "it's \"quoted\" inside", "x" * 80,
-                                      "#1 Linux 20", "; semi first", "ALL", "1,2,3", "0.5", "[general]", "x = y"]),
+                                      "#1 Linux 20", "; semi first", "ALL", "1,2,3", "0.5", "[general]", "x = y",
+                                      # characters str.splitlines() breaks on but a text file does not end a line with
+                                      "ver\x0btical", "form\x0cfeed", "line\u2028sep", "next\x85line", "fs\x1cgs\x1d", "tab\tinside"]),
             "arch": pick(rng, pools.ARCHES + ["src"]),
             "disc_numbers": ["ALL"] if rng.random() < 0.4 else (sorted(subset(rng, [1, 2, 3, 4, 10, 11], 1, 4)) if rng.random() < 0.7 else
                                                                    pick(rng, [[1, 1], [2, 1, 2], [3, 2, 1], [10, 9], [1, 2, 2, 3], [0], [-1, 1]]))}
